@@ -261,7 +261,7 @@ func (i *ICMPv6) NextLayerType() gopacket.LayerType {
 }
 
 func (i *ICMPv6) VerifyChecksum() (error, gopacket.ChecksumVerificationResult) {
-	bytes := append(i.Contents, i.Payload...)
+	bytes := headerAndPayload(i.Contents, i.Payload)
 
 	existing := i.Checksum
 	verification, err := i.computeChecksum(bytes, IPProtocolICMPv6)
